@@ -29,6 +29,13 @@ def build_extension():
     return moddir
 
 
+def hash_of(b):
+    import hashlib
+    return hashlib.blake2b(json.dumps(b, sort_keys=True).encode(), digest_size=2).digest()[0]
+
+
+
+
 def main():
     run = Run("C20")
     moddir = build_extension()
@@ -62,7 +69,7 @@ def main():
     outp = os.path.join(run.wd, "py_out.ndjson")
     with open(inp, "w") as f:
         for b in beh:
-            f.write(json.dumps(dict(b, path=files[(b["kind"], b["ds"])], chrom=chrom_name(1))) + "\n")
+            f.write(json.dumps(dict(b, path=files[(b["kind"], b["ds"])], chrom=chrom_name(1), flaky=1 if hash_of(b) % 8 == 0 else 0)) + "\n")
     # the driver may die on an abort inside the extension: restart after the offending request
     obs, pos = [], 0
     lines_in = open(inp).read().splitlines()
@@ -85,6 +92,17 @@ def main():
             pos += 1
     if pos < len(lines_in):
         raise ToolError("python driver kept dying")
+    # requests flagged "flaky" were repeated through a file-like object failing at every read() made during the call: one observation each
+    extra = []
+    for o in obs:
+        fk = o["obs"].pop("flaky", None) if isinstance(o.get("obs"), dict) else None
+        if fk:
+            for ft in fk["faults"]:
+                extra.append(dict({k: v for k, v in o.items() if k != "obs"}, fault=1, fault_at=ft["n"], arr=0,
+                                  obs={"result": ft["result"], "out": ft["out"], "err": ft.get("err", "")}))
+    run.cov["requests_repeated_with_a_failing_reader"] = len(extra)
+    run.cov["failing_reader_outcomes"] = {"exception": sum(1 for o in extra if o["obs"]["result"] == "exception"), "array_returned": sum(1 for o in extra if o["obs"]["result"] == "ok")}
+    obs += extra
     lines = []
     for o in obs:
         o.pop("path", None)
